@@ -1,8 +1,50 @@
 import Driver.Util
-open Lean
+import Driver.C04
+import Paroxy.Model.Costs
+open Lean Paroxy Paroxy.Filter Paroxy.Costs
 
 namespace Driver.C07
 
-def handlers : List (String × Handler) := []
+/-- `cost.taxon`: pure `taxon_cost`. -/
+def taxon : Handler := fun j => do
+  let strat ← C04.parseStrategy (← getStr j "strategy")
+  let K ← C04.codesList (← j.getObjVal? "knowledge")
+  let ts ← C04.codesList (← j.getObjVal? "taxa")
+  pure (Json.arr (ts.map fun t => Json.str (C04.ratStr (taxonCost strat K t))).toArray)
+
+def parseOp (j : Json) : Except String AOp := do
+  let kind ← getStr j "kind"
+  if kind == "set" then pure (.setKnowledge (← C04.codesList (← j.getObjVal? "knowledge")))
+  else if kind == "taxon" then pure (.taxonCost (codesOf (← getStr j "taxon")))
+  else if kind == "assess" then pure (.assess (← C04.codesList (← j.getObjVal? "selected")))
+  else throw "unknown assessor op"
+
+def outJson : AOut → Json
+  | .unit => Json.null
+  | .cost v => Json.str (C04.ratStr v)
+  | .ranking none => Json.mkObj [("exc", "KeyError")]
+  | .ranking (some l) => Json.arr (l.map fun (q, p) => Json.arr #[Json.str (C04.ratStr q), Json.str (strOf p)]).toArray
+
+/-- `cost.history`: a sequence of operations on ONE assessor (memoised state machine), together with
+the pure recomputation under the knowledge current at each step (`spec`). -/
+def history : Handler := fun j => do
+  let strat ← C04.parseStrategy (← getStr j "strategy")
+  let progs ← C04.pairs (← j.getObjVal? "programs") C04.parseTaxaSpans
+  let ops ← (← getArr j "ops").toList.mapM parseOp
+  let K0 ← C04.codesList (← j.getObjVal? "knowledge0")
+  let rec go (s : AState) (ops : List AOp) (acc : Array Json) (accSpec : Array Json) : Array Json × Array Json :=
+    match ops with
+    | [] => (acc, accSpec)
+    | op :: t =>
+      let (s', out) := astep strat progs s op
+      let pure_ := match op with
+        | .setKnowledge _ => AOut.unit
+        | .taxonCost t => .cost (taxonCost strat s.knowledge t)
+        | .assess sel => .ranking (assess strat progs s.knowledge sel)
+      go s' t (acc.push (outJson out)) (accSpec.push (outJson pure_))
+  let (m, sp) := go { knowledge := K0, memo := [] } ops #[] #[]
+  pure (Json.mkObj [("model", Json.arr m), ("spec", Json.arr sp)])
+
+def handlers : List (String × Handler) := [("cost.taxon", taxon), ("cost.history", history)]
 
 end Driver.C07
